@@ -624,6 +624,12 @@ func main() {
 		for _, via := range []string{"/oneshot", "/git-add"} {
 			for _, sz := range []int{4900, 200000}[:run.N(1, 2)] {
 				add(tcase{Mode: "progress-env", Size: sz, Content: "random", Wt: "absent", Chunk: kind, Pk: via})
+				if kind == "abs-ok" && via == "/oneshot" {
+					// with a usable progress file the copy runs with a progress callback: whatever sits at the path must still not matter
+					for _, wt := range []string{"same", "short0", "short10", "short1024", "longer"} {
+						add(tcase{Mode: "progress-env", Size: sz, Content: "random", Wt: wt, Chunk: kind, Pk: via})
+					}
+				}
 			}
 		}
 	}
